@@ -97,4 +97,145 @@ theorem tie_chunkFlushShape : chunkFlushShape =
 theorem tie_chunkWaitShape : chunkWaitShape =
     ["call ce.executor.Wait"] := by decide
 
+/-! ### what the skeletons drop: comparison operators, atomic deltas, channel capacities, local flags -/
+
+/-- meaning of a Go comparison operator on integers -/
+def cmpEval (op : String) (a b : Int) : Bool :=
+  match op with
+  | ">=" => decide (a ≥ b) | ">" => decide (a > b) | "<=" => decide (a ≤ b) | "<" => decide (a < b)
+  | "==" => decide (a = b) | "!=" => decide (a ≠ b) | _ => false
+
+/-- bulk: `AddTask` appends and answers `len(bc.tasks) >= bc.maxTasks` — the model's `bulkFull`, for all inputs -/
+theorem tie_bulkThreshold :
+    bulkAddTaskStmts = ["bc.tasks = append(bc.tasks, task)", "return len(bc.tasks) >= bc.maxTasks"] ∧
+    bulkThreshold.head? = some "len(bc.tasks)" ∧ bulkThreshold.getLast? = some "bc.maxTasks" ∧
+    ∀ (l : List Task) (max : Int), bulkFull max l = cmpEval (bulkThreshold.getD 1 "") (l.length : Int) max := by
+  refine ⟨by decide, by decide, by decide, ?_⟩
+  intro l max
+  have : bulkThreshold.getD 1 "" = ">=" := by decide
+  rw [this]; rfl
+
+/-- chunk: `AddTask` appends the value, adds the size and answers `bc.size >= bc.maxChunkSize` — `chunkFull` -/
+theorem tie_chunkThreshold :
+    chunkAddTaskStmts = ["ck := task.(chunk)", "bc.tasks = append(bc.tasks, ck.val)", "bc.size += ck.size",
+      "return bc.size >= bc.maxChunkSize"] ∧
+    chunkThreshold.head? = some "bc.size" ∧ chunkThreshold.getLast? = some "bc.maxChunkSize" ∧
+    ∀ (size : Task → Nat) (l : List Task) (max : Int),
+      chunkFull size max l = cmpEval (chunkThreshold.getD 1 "") (((l.map size).sum : Nat) : Int) max := by
+  refine ⟨by decide, by decide, by decide, ?_⟩
+  intro size l max
+  have : chunkThreshold.getD 1 "" = ">=" := by decide
+  rw [this]; rfl
+
+/-- `RemoveAll` hands out everything and empties the container (chunk: also resets the byte count) -/
+theorem tie_removeAllStmts :
+    bulkRemoveAllStmts = ["tasks := bc.tasks", "bc.tasks = nil", "return tasks"] ∧
+    chunkRemoveAllStmts = ["tasks := bc.tasks", "bc.tasks = nil", "bc.size = 0", "return tasks"] := by decide
+
+theorem tie_executeStmts :
+    bulkExecuteStmts = ["vals := tasks.([]any)", "bc.execute(vals)"] ∧
+    chunkExecuteStmts = ["vals := tasks.([]any)", "bc.execute(vals)"] := by decide
+
+/-- the constructors pass the options' threshold to the container and the container to the executor;
+`ChunkExecutor.Add` wraps value and size into one task -/
+theorem tie_constructors :
+    newBulkStmts.getD 2 "" = "container := &bulkContainer{ execute: execute, maxTasks: options.cachedTasks, }" ∧
+    newBulkStmts.getD 3 "" = "executor := &BulkExecutor{ executor: NewPeriodicalExecutor(options.flushInterval, container), container: container, }" ∧
+    newChunkStmts.getD 2 "" = "container := &chunkContainer{ execute: execute, maxChunkSize: options.chunkSize, }" ∧
+    newChunkStmts.getD 3 "" = "executor := &ChunkExecutor{ executor: NewPeriodicalExecutor(options.flushInterval, container), container: container, }" ∧
+    chunkAddStmts = ["ce.executor.Add(chunk{ val: task, size: size, })", "return nil"] := by decide
+
+/-- the flusher's loop, statement by statement: the commander case sets `commanded`, enters the wait group BEFORE
+it decrements `inflight` (the fixed order: rows bEnterF, bDecF), confirms, executes, stamps `last`; the ticker case
+skips one flush after a commanded one, stamps `last` only after a non-empty flush, and asks `shallQuit(last)` only
+after an empty one (rows bSelect/tick, fDone tick, bQuit) -/
+theorem tie_backgroundFlushCases : backgroundFlushCases =
+    ["case vals := <-pe.commander:", "commanded = true", "pe.enterExecution()", "atomic.AddInt32(&pe.inflight, -1)",
+     "pe.confirmChan <- lang.Placeholder", "pe.executeTasks(vals)", "last = timex.Now()",
+     "case <-ticker.Chan():",
+     "if commanded { commanded = false } else if pe.Flush() { last = timex.Now() } else if pe.shallQuit(last) { return }"] := by
+  decide
+
+theorem tie_commandedAssigns : commandedAssigns = ["var commanded bool", "commanded = true", "commanded = false"] ∧
+    lastAssigns = ["last := timex.Now()", "last = timex.Now()", "last = timex.Now()"] := by decide
+
+/-- `inflight` goes up by one per handed-over batch (row aInc), down by one per received batch (row bDecF), and is
+only read by `Wait` and `shallQuit` -/
+theorem tie_inflightDeltas :
+    addAndCheckAtomics = ["atomic.AddInt32(&pe.inflight, 1)"] ∧
+    backgroundFlushAtomics = ["atomic.AddInt32(&pe.inflight, -1)"] ∧
+    waitAtomics = ["atomic.LoadInt32(&pe.inflight)"] ∧
+    shallQuitAtomics = ["atomic.LoadInt32(&pe.inflight)"] := by decide
+
+/-- commander has a buffer of ONE batch (row aSend blocks on a full buffer), confirmChan is unbuffered
+(row bConfirm is a rendezvous) -/
+theorem tie_channelCapacities : newMakes = ["make(chan any, 1)", "make(chan lang.PlaceholderType)"] := by decide
+
+/-- conditions with their operators and polarity -/
+theorem tie_conditions :
+    addAndCheckConds = ["if !pe.guarded", "if pe.container.AddTask(task)", "return pe.container.RemoveAll(), true",
+      "return nil, false"] ∧
+    addConds = ["if ok"] ∧
+    executeTasksConds = ["if ok", "return ok"] ∧
+    hasTasksConds = ["if tasks == nil", "return false", "return val.Len() > 0", "return true"] ∧
+    shallQuitConds = ["if timex.Since(last) <= pe.interval*idleRound", "return",
+      "if atomic.LoadInt32(&pe.inflight) == 0", "return"] ∧
+    shallQuitStops = ["stop = true"] ∧
+    waitConds = ["for atomic.LoadInt32(&pe.inflight) > 0"] ∧
+    flushConds = ["return pe.executeTasks(func() any { pe.lock.Lock() defer pe.lock.Unlock() return pe.container.RemoveAll() }())",
+      "return pe.container.RemoveAll()"] := by decide
+
+/-- the model's reading of those conditions, as functions: row bQuit stays iff `now - last ≤ interval * idleRound`,
+row qCheck stops iff `inflight = 0`, row wSpin passes iff `¬ inflight > 0`, rows fExec / bExec call iff the batch is
+non-empty -/
+theorem tie_condition_meaning (cfg : Cfg) (s : St) (t : Nat) (th : Thread) :
+    (th.pc = .bQuit → stepTh cfg s t th .tau =
+      some (s.upd t { th with pc := if cmpEval "<=" ((s.now - th.last : Nat) : Int) ((cfg.interval * GoZero.C11.idleRound : Nat) : Int) then .bSelect false else .qLock })) ∧
+    (th.pc = .qCheck → stepTh cfg s t th .tau =
+      if cmpEval "==" s.inflight 0 then some ({ s with guarded := false }.upd t { th with pc := .qUnlock true })
+      else some (s.upd t { th with pc := .qUnlock false })) ∧
+    (th.pc = .wSpin → stepTh cfg s t th .tau =
+      if cmpEval ">" s.inflight 0 then none else some (s.upd t { th with pc := .wBarrier })) := by
+  refine ⟨?_, ?_, ?_⟩ <;> intro hpc <;> unfold stepTh <;> simp [hpc, cmpEval]
+  · by_cases h1 : s.now ≤ cfg.interval * GoZero.C11.idleRound + th.last
+    · have h2 : (((s.now - th.last : Nat) : Int)) ≤ (cfg.interval : Int) * (GoZero.C11.idleRound : Int) := by
+        simp only [GoZero.C11.idleRound] at h1 ⊢; omega
+      simp [h1, h2]
+    · have h2 : ¬ (((s.now - th.last : Nat) : Int)) ≤ (cfg.interval : Int) * (GoZero.C11.idleRound : Int) := by
+        simp only [GoZero.C11.idleRound] at h1 ⊢; omega
+      simp [h1, h2]
+
+/-! ### users of the executor named by the property's anchors: core/stores/sqlx BulkInserter -/
+
+/-- `dbInserter` is a bulk container with the fixed threshold `maxBulkRows = 1000`: the same `bulkFull`, so every
+theorem of Props.lean (stated for an arbitrary `cfg.full`) covers the inserter -/
+theorem tie_sqlxContainer :
+    sqlxMaxBulkRows = 1000 ∧
+    sqlxAddTaskStmts = ["in.values = append(in.values, task.(string))", "return len(in.values) >= maxBulkRows"] ∧
+    sqlxRemoveAllStmts = ["values := in.values", "in.values = nil", "return values"] ∧
+    sqlxThreshold = ["len(in.values)", ">=", "maxBulkRows"] ∧
+    ∀ (l : List Task), bulkFull sqlxMaxBulkRows l = cmpEval (sqlxThreshold.getD 1 "") (l.length : Int) 1000 := by
+  refine ⟨by decide, by decide, by decide, by decide, ?_⟩
+  intro l
+  have h1 : sqlxThreshold.getD 1 "" = ">=" := by decide
+  have h2 : sqlxMaxBulkRows = 1000 := by decide
+  rw [h1, h2]; rfl
+
+/-- `Insert` = format + `executor.Add` under the read lock; `Flush`, `UpdateOrDelete`, `UpdateStmt` = `executor.Flush`
+(+ `Sync` for the statement swap); `Execute` ignores an empty batch -/
+theorem tie_sqlxCalls :
+    sqlxInsertShape = ["call bi.lock.RLock", "defer{", "call bi.lock.RUnlock", "}", "call format", "if err != nil {",
+      "return", "}", "call bi.executor.Add", "return"] ∧
+    sqlxFlushShape = ["call bi.executor.Flush"] ∧
+    sqlxUpdateOrDeleteShape = ["call bi.executor.Flush", "call fn"] ∧
+    sqlxUpdateStmtShape = ["call parseInsertStmt", "if err != nil {", "return", "}", "call bi.lock.Lock", "defer{",
+      "call bi.lock.Unlock", "}", "store bi.stmt", "call bi.executor.Flush", "func{", "store bi.inserter.stmt", "}",
+      "call bi.executor.Sync", "return"] ∧
+    sqlxSetResultHandlerShape = ["func{", "store bi.inserter.resultHandler", "}", "call bi.executor.Sync"] ∧
+    sqlxNewShape = ["call parseInsertStmt", "if err != nil {", "return", "}", "call executors.NewPeriodicalExecutor",
+      "return"] ∧
+    sqlxExecuteConds.head? = some "if len(values) == 0" := by decide
+
+theorem tie_syncShape : syncShape = ["call pe.lock.Lock", "defer{", "call pe.lock.Unlock", "}", "call fn"] := by decide
+
 end GoZero.C11.Tie
